@@ -338,7 +338,7 @@ def add_peers(W, kind, reply_total=None):
         dg = []
         for _ in range(rng.choice([1, 2, 4])):
             hdr = udp_header(name=b"target.test") if rng.random() < 0.4 else udp_header(ip=W.tg_ip)
-            body = [rng.randrange(256) for _ in range(rng.choice([0, 1, 20, 60, 1400]))]
+            body = [rng.randrange(256) for _ in range(rng.choice([0, 1, 20, 60, 1400, 1490, 1495, 3000]))]
             d = hdr + body
             x = rng.random()
             if x < 0.25: d = d[:rng.randrange(len(hdr) + 1)]             # truncated header
